@@ -35,7 +35,7 @@ package path
 // ToStrings returns exactly idxpath(p, prefix): a function of the path's
 // content, hence deterministic and independent of map iteration order.
 //@ func ToStrings
-//@   props C19 C12
+//@   props C19 C12 C01
 //@   allocates none
 //@   invariant 0: view(is) == Lead(p, prefix) ++ flat(p, $i) && 0 <= $i && $i <= len(p.Elem) && p != nil && fresh(is)
 //@   invariant 1: p != nil && 0 <= $i0 && $i0 < len(p.Elem) && fresh(is) && e == p.Elem[$i0] && e != nil && len(e.Key) == 1 && keys == e.Key
